@@ -106,6 +106,9 @@ MUTATORS = {
     "C17": [
         ("setting from wrong name", r"quimb/linalg/base_linalg\.py$", r"^(\s+)\"return_vecs\": return_vecs,\s*$", r'\1"return_vecs": True,'),
         ("dense table", r"quimb/linalg/numpy_linalg\.py$", r"^(\s+)\(True, False, False\): nla\.eigvalsh,\s*$", r"\1(True, False, False): nla.eigvals,"),
+        ("values sorted without vectors", r"quimb/linalg/numpy_linalg\.py$", r"^(\s+)lk, vk = lk\[so\], vk\[:, so\]\s*$", r"\1lk = lk[so]"),
+        ("scipy sort without vectors", r"quimb/linalg/scipy_linalg\.py$", r"^(\s+)lk, vk = lk\[sortinds\], vk\[:, sortinds\]\s*$", r"\1lk = lk[sortinds]"),
+        ("selector returns positions", r"quimb/linalg/numpy_linalg\.py$", r"^(\s+)return np\.argsort\(_SORT_FUNCS\[method\.upper\(\)\]\(a\)\)\s*$", r"\1if method.upper() == 'SA':\n\1    return np.arange(a.size)\n\1return np.argsort(_SORT_FUNCS[method.upper()](a))"),
     ],
     "C18": [
         ("expm ignores kind", r"quimb/evo\.py$", r"^(\s+)self\._update_method = self\._update_to_expm_dop\s*$", r"\1self._update_method = self._update_to_expm_ket"),
